@@ -480,7 +480,11 @@ def run(prop: str, tier: str, seed: int) -> int:
                     it.meta.get("attr", ""), it.meta.get("body", ""))
             else:
                 sig = "%s|rejected|%s|%s" % (prop, key, desc[:120])
-                summary = "expected to compile but got: %s -- %s %s" % (
+                if r.get("context_dependent"):
+                    sig = "%s|rejected-after-other-enums|%s|%s" % (prop, key, desc[:120])
+                summary = ("compiles in a crate of its own but NOT when it is expanded after %d other enums of the same crate "
+                           "(state carried from one expansion to the next): " % r["context_items"] if r.get("context_dependent") else "") + \
+                    "expected to compile but got: %s -- %s %s" % (
                     r["errors"][0]["message"][:200] if r["errors"] else "?", it.meta.get("attr", ""), it.meta.get("body", ""))
             violations.append(Violation(prop, sig, summary, {
                 "kind": "compile-outcome", "expected": it.expect, "observed": r["outcome"], "meta": it.meta,
